@@ -552,7 +552,7 @@ func (v *c10identity) Exit(n *ast.Node) { v.exit[*n]++ }
 func c10SharedNodes(c *Ctx) {
 	r := c.R
 	srcs := []string{"a ?: b", "(x + 1) ?: 2", "f(a) ?: g(b)", "a ?: b ?: c", "a ? b : c", "not (a ?: b)", "[a ?: b, c]", "{k: a ?: b}", "all(xs, {# ?: a})",
-		"a.b ?: c", "a[1:2] ?: b", "x in 1..3", "x not in 1..3", "x in [1, 2, 3]", "a matches \"b\"", "1 + 2 + x", "f(1 + 2)", "a?.b?.c", "a ? a : a"}
+		"a.b ?: c", "a[1:2] ?: b", "x in 1..3", "x not in 1..3", "a.b in 1..3", "a.b.c not in 1..3", "a?.b in 1..3", "all(xs, {#.n in 1..3})", "all(xs, {# in 1..3})", "7 in 1..3", "x in [1, 2, 3]", "a matches \"b\"", "1 + 2 + x", "f(1 + 2)", "a?.b?.c", "a ? a : a"}
 	gen, _ := fxSources(c.Rng, 60, 4, false)
 	for _, g := range gen {
 		srcs = append(srcs, g.Src, "("+g.Src+") ?: false")
